@@ -19,7 +19,9 @@ if git apply --check "$src/patch.diff" 2>/dev/null; then
   rm -f "$ddir/zz_demo_test.go"
   git apply "$src/patch.diff"
   if go build ./... >/dev/null 2>&1; then build=ok; else build=FAIL; fi
-  ok=1; for i in 1 2; do go test -vet=off -count=1 ./... >/tmp/confirm_$name.suite.log 2>&1 && { ok=0; break; }; done
+  # SKIP_SUITE=1: the patch is a mutant that the mutation run already showed to pass the whole suite
+  if [ "${SKIP_SUITE:-}" = 1 ]; then ok=0; else
+  ok=1; for i in 1 2; do go test -vet=off -count=1 ./... >/tmp/confirm_$name.suite.log 2>&1 && { ok=0; break; }; done; fi
   [ $ok = 0 ] && suite=pass || suite=FAIL
   cp "$src/demo_test.go" "$ddir/zz_demo_test.go"
   # run only the demo's tests
